@@ -66,7 +66,7 @@ def gene_label(draw):
 
 @st.composite
 def strategy(draw):
-    style = draw(st.sampled_from(["chr", ""]))
+    style = draw(st.sampled_from(["chr", "", "chr", "", "Chr", "CHR"]))  # the prefix is recognised whatever its case (TAIR10, rice: Chr1)
     dotted = draw(st.integers(0, 3)) == 0
     base = [style + str(k) for k in (1, 2, 3, 9, 10, 11, 21, 22)] + [style + "X", style + "Y", style + "M" if style else "MT"]
     exotic = [style + "Un_gl000220", style + "1_gl000191_random", style + "6_apd_hap1", "chr1_KI270762v1_alt" if style else "KI270762v1_alt", "scaffold_12",
